@@ -411,6 +411,41 @@ theorem cumFrom_succ (s : α) (l : List α) (i : Nat) (hi : i < l.length) :
       simp only [cumFrom, List.getElem_cons_succ]
       exact ih (s + a) i (by simpa using hi)
 
+/-! ### fractions, and monotonicity of the interpolated time -/
+
+theorem frac_bounds (sb sf s : α) (h1 : sb < s) (h2 : s ≤ sf) :
+    0 < (s - sb) / (sf - sb) ∧ (s - sb) / (sf - sb) ≤ 1 := by
+  have hd : 0 < sf - sb := by linarith
+  exact ⟨div_pos (by linarith) hd, (div_le_one hd).mpr (by linarith)⟩
+
+theorem lerp_bounds (tb tf f : α) (h : tb ≤ tf) (h0 : 0 ≤ f) (h1 : f ≤ 1) :
+    tb ≤ tb + f * (tf - tb) ∧ tb + f * (tf - tb) ≤ tf := by
+  have hd : 0 ≤ tf - tb := by linarith
+  constructor
+  · have := mul_nonneg h0 hd; linarith
+  · have := mul_le_mul_of_nonneg_right h1 hd; linarith
+
+theorem times_mono (P : List (Fix α)) (hT : (P.map (·.t)).Pairwise (· ≤ ·)) (i j : Nat) (hij : i ≤ j)
+    (hj : j < P.length) : (P[i]'(by omega)).t ≤ P[j].t := by
+  rcases Nat.eq_or_lt_of_le hij with h | h
+  · subst h; exact le_refl _
+  · have := List.pairwise_iff_getElem.mp hT i j (by simp; omega) (by simpa using hj) h
+    simpa using this
+
+/-- the clamp of the fix commit 20ed89f changes nothing when the value already lies between the two stamps -/
+theorem clampT_noop (T tb tf : α) (h1 : tb ≤ T) (h2 : T ≤ tf) : clampT T tb tf = T := by
+  unfold clampT pmax pmin
+  rw [if_neg (not_lt_of_ge h1), if_neg (not_lt_of_ge h2)]
+
+/-- in exact arithmetic the weighted mean of two stamps `tb ≤ tf` lies between them: the clamp is a no-op -/
+theorem clampT_combine (vb vf v tb tf : α) (h1 : vb < v) (h2 : v ≤ vf) (ht : tb ≤ tf) :
+    clampT ((vf - v) / (vf - vb) * tb + (v - vb) / (vf - vb) * tf) tb tf
+      = tb + (v - vb) / (vf - vb) * (tf - tb) := by
+  rw [combine_eq _ _ _ _ _ (lt_of_lt_of_le h1 h2)]
+  obtain ⟨f0, f1⟩ := frac_bounds vb vf v h1 h2
+  obtain ⟨l0, l1⟩ := lerp_bounds tb tf _ ht (le_of_lt f0) f1
+  exact clampT_noop _ _ _ l0 l1
+
 /-! ### the spatial loop in function form -/
 
 /-- the sample the property demands at curvilinear abscissa `s`: on the leg `r = firstGE s S`
@@ -423,7 +458,7 @@ def sampleS (P : List (Fix α)) (S : List α) (s : α) : Fix α :=
   lerpFix pb pf f (pb.t + f * (pf.t - pb.t))
 
 theorem spatialLoop_eq (P : List (Fix α)) (S : List α) (sini ds : α) (hlen : S.length = P.length)
-    (hn : 0 < S.length) (hds : 0 ≤ ds) (n k rid : Nat)
+    (hn : 0 < S.length) (hT : (P.map (·.t)).Pairwise (· ≤ ·)) (hds : 0 ≤ ds) (n k rid : Nat)
     (hlo : ∀ j, k ≤ j → S[0] < (j : α) * ds + sini)
     (hhi : ∀ j, j < k + n → (j : α) * ds + sini ≤ S[S.length - 1])
     (inv : rid ≤ firstGE ((k : α) * ds + sini) S) :
@@ -452,8 +487,8 @@ theorem spatialLoop_eq (P : List (Fix α)) (S : List α) (sini ds : α) (hlen : 
         fixAt_eq P (firstGE ((k : α) * ds + sini) S - 1) (by omega),
         getD0_eq S _ hrlt,
         getD0_eq S (firstGE ((k : α) * ds + sini) S - 1) (by omega)]
-      rw [combine_eq _ _ _ _ _ hlt, combine_eq _ _ _ _ _ hlt, combine_eq _ _ _ _ _ hlt,
-        combine_eq _ _ _ _ _ hlt]
+      rw [clampT_combine _ _ _ _ _ hb1 hb2 (times_mono P hT _ _ (by omega) hrP),
+        combine_eq _ _ _ _ _ hlt, combine_eq _ _ _ _ _ hlt, combine_eq _ _ _ _ _ hlt]
     · apply List.map_congr_left
       intro j _
       simp only [Function.comp, Nat.succ_eq_add_one]
@@ -461,26 +496,7 @@ theorem spatialLoop_eq (P : List (Fix α)) (S : List α) (sini ds : α) (hlen : 
       rw [this]
 
 
-/-! ### fractions, and monotonicity of the interpolated time -/
-
-theorem frac_bounds (sb sf s : α) (h1 : sb < s) (h2 : s ≤ sf) :
-    0 < (s - sb) / (sf - sb) ∧ (s - sb) / (sf - sb) ≤ 1 := by
-  have hd : 0 < sf - sb := by linarith
-  exact ⟨div_pos (by linarith) hd, (div_le_one hd).mpr (by linarith)⟩
-
-theorem lerp_bounds (tb tf f : α) (h : tb ≤ tf) (h0 : 0 ≤ f) (h1 : f ≤ 1) :
-    tb ≤ tb + f * (tf - tb) ∧ tb + f * (tf - tb) ≤ tf := by
-  have hd : 0 ≤ tf - tb := by linarith
-  constructor
-  · have := mul_nonneg h0 hd; linarith
-  · have := mul_le_mul_of_nonneg_right h1 hd; linarith
-
-theorem times_mono (P : List (Fix α)) (hT : (P.map (·.t)).Pairwise (· ≤ ·)) (i j : Nat) (hij : i ≤ j)
-    (hj : j < P.length) : (P[i]'(by omega)).t ≤ P[j].t := by
-  rcases Nat.eq_or_lt_of_le hij with h | h
-  · subst h; exact le_refl _
-  · have := List.pairwise_iff_getElem.mp hT i j (by simp; omega) (by simpa using hj) h
-    simpa using this
+/-! ### monotonicity of the interpolated time -/
 
 /-- the sample at abscissa `s` with `S[0] < s ≤ S[last]`: its leg, and its time between the leg's end times -/
 theorem sampleS_t_bounds (P : List (Fix α)) (S : List α) (hlen : S.length = P.length) (hn : 0 < S.length)
@@ -671,8 +687,8 @@ theorem polyLen_nonneg (legs : List α) (h : ∀ x ∈ legs, 0 ≤ x) : 0 ≤ po
   exact cumFrom_ge 0 legs h _ (List.getElem_mem _)
 
 theorem resampleSpatialLegs_eq (trunc : α → Int) (htr : TruncSpec trunc) (P : List (Fix α))
-    (legs : List α) (hlen : legs.length + 1 = P.length) (hlegs : ∀ x ∈ legs, 0 ≤ x) (ds : α)
-    (hds : 0 < ds) :
+    (legs : List α) (hlen : legs.length + 1 = P.length) (hlegs : ∀ x ∈ legs, 0 ≤ x)
+    (hT : (P.map (·.t)).Pairwise (· ≤ ·)) (ds : α) (hds : 0 < ds) :
     resampleSpatialLegs trunc P legs ds
       = .ok (P[0]'(by omega) :: (List.range (trunc (polyLen legs / ds)).toNat).map
           (fun (j : Nat) => sampleS P (cum legs) (((j + 1 : Nat) : α) * ds))) := by
@@ -696,7 +712,7 @@ theorem resampleSpatialLegs_eq (trunc : α → Int) (htr : TruncSpec trunc) (P :
   simp only [hhead, hlast, hPhead, sub_zero, if_pos (Or.inr hds)]
   rw [show spatialLoop P (cum legs) 0 (polyLen legs) ds = spatialLoop P (cum legs) 0
     ((cum legs)[(cum legs).length - 1]'(by rw [cum_length]; omega)) ds from by rw [← polyLen_eq]]
-  rw [spatialLoop_eq P (cum legs) 0 ds (by omega) (by omega) (le_of_lt hds) _ 1 0 ?_ ?_ (Nat.zero_le _)]
+  rw [spatialLoop_eq P (cum legs) 0 ds (by omega) (by omega) hT (le_of_lt hds) _ 1 0 ?_ ?_ (Nat.zero_le _)]
   · simp only []
     congr 2
     apply List.map_congr_left
@@ -897,5 +913,138 @@ theorem pmin_eq (a b : α) : pmin a b = min a b := by
   · rename_i h; exact (min_eq_left (le_of_not_gt h)).symm
 
 end Field
+
+/-! ### the clamp of the interpolated time (fix commit 20ed89f), WITHOUT exact arithmetic
+
+`β` carries a linear order and four arbitrary binary operations: nothing is assumed of `+ − × ÷` (they may round, as
+IEEE doubles do — the doubles without NaN are linearly ordered). What the clamp guarantees holds for every value the
+weighted mean may take. -/
+section AnyArith
+variable {β : Type} [LinearOrder β] [Add β] [Sub β] [Mul β] [Div β] [OfNat β 0] [NatCast β]
+
+theorem pmax_eq' (a b : β) : pmax a b = max a b := by
+  unfold pmax
+  split
+  · rename_i h; exact (max_eq_right (le_of_lt h)).symm
+  · rename_i h; exact (max_eq_left (le_of_not_gt h)).symm
+
+theorem pmin_eq' (a b : β) : pmin a b = min a b := by
+  unfold pmin
+  split
+  · rename_i h; exact (min_eq_right (le_of_lt h)).symm
+  · rename_i h; exact (min_eq_left (le_of_not_gt h)).symm
+
+/-- whatever `T` is, `min(max(T, tb), tf)` lies in `[tb, tf]` when `tb ≤ tf` -/
+theorem clampT_mem (T tb tf : β) (h : tb ≤ tf) : tb ≤ clampT T tb tf ∧ clampT T tb tf ≤ tf := by
+  unfold clampT
+  rw [pmin_eq', pmax_eq']
+  exact ⟨le_min (le_max_right _ _) h, min_le_right _ _⟩
+
+/-- … and is `tf` when `tf ≤ tb` (in particular `t` on a leg travelled in no time, `tb = tf = t`) -/
+theorem clampT_rev (T tb tf : β) (h : tf ≤ tb) : clampT T tb tf = tf := by
+  unfold clampT
+  rw [pmin_eq', pmax_eq']
+  exact min_eq_right (le_trans h (le_max_right _ _))
+
+theorem scanB_ge (v : β) : ∀ (l : List β) (i r : Nat), scanB v l i = some r → i ≤ r
+  | [], _, _, h => by simp [scanB] at h
+  | [_], i, r, h => by simp only [scanB, Option.some.injEq] at h; omega
+  | w :: w' :: ws, i, r, h => by
+    unfold scanB at h
+    split at h
+    · have := scanB_ge v (w' :: ws) (i + 1) r h; omega
+    · simp only [Option.some.injEq] at h; omega
+
+theorem advanceB_ge (V : List β) (v : β) (rid r : Nat) (h : advanceB V v rid = some r) : rid ≤ r :=
+  scanB_ge v _ _ _ h
+
+theorem bracket_inv {P : List (Fix β)} {V : List β} {v : β} {r : Nat} {pb pf : Fix β} {wb wf : β}
+    (h : bracket P V v r = .ok (pb, pf, wb, wf)) : P[bwdIdx r P.length]? = some pb ∧ P[r]? = some pf := by
+  unfold bracket at h
+  split at h
+  · rename_i a b c d e1 e2 e3 e4
+    split at h
+    · simp only [Except.ok.injEq, Prod.mk.injEq] at h
+      exact ⟨by rw [e1, h.1], by rw [e2, h.2.1]⟩
+    · exact absurd h (by simp)
+  · exact absurd h (by simp)
+
+theorem times_le (P : List (Fix β)) (hT : (P.map (·.t)).Pairwise (· ≤ ·)) {i j : Nat} {a b : Fix β}
+    (ha : P[i]? = some a) (hb : P[j]? = some b) (hij : i ≤ j) : a.t ≤ b.t := by
+  obtain ⟨hi, rfl⟩ := List.getElem?_eq_some_iff.mp ha
+  obtain ⟨hj, rfl⟩ := List.getElem?_eq_some_iff.mp hb
+  rcases Nat.eq_or_lt_of_le hij with h | h
+  · subst h; exact le_refl _
+  · have := List.pairwise_iff_getElem.mp hT i j (by simpa using hi) (by simpa using hj) h
+    simpa using this
+
+/-- the time of the output `o` lies between the stamps of the two fixes of the leg `r` (for `r = 0`, which Python reads
+as the pair (last fix, first fix), the clamp returns the first stamp: both bounds are `P[0]`) -/
+def OnLeg (P : List (Fix β)) (r : Nat) (o : Fix β) : Prop :=
+  ∃ pb pf, P[r - 1]? = some pb ∧ P[r]? = some pf ∧ pb.t ≤ o.t ∧ o.t ≤ pf.t
+
+/-- the spatial loop, any arithmetic: with stamps that never decrease, every output's time lies between the two stamps of
+its leg, and the legs used never go backwards (`running_id` only advances) -/
+theorem spatialLoop_any (P : List (Fix β)) (hT : (P.map (·.t)).Pairwise (· ≤ ·)) (S : List β) (sini sfin ds : β) :
+    ∀ (n k rid : Nat) (out : List (Fix β)), spatialLoop P S sini sfin ds n k rid = .ok out →
+      ∃ legs : List Nat, List.Forall₂ (OnLeg P) legs out ∧ (∀ r ∈ legs, rid ≤ r) ∧ legs.Pairwise (· ≤ ·)
+  | 0, _, _, out, h => by
+    simp only [spatialLoop, Except.ok.injEq] at h
+    subst h
+    exact ⟨[], List.Forall₂.nil, by simp, List.Pairwise.nil⟩
+  | n + 1, k, rid, out, h => by
+    unfold spatialLoop at h
+    simp only [] at h
+    split at h
+    · exact absurd h (by simp)
+    · rename_i r hadv
+      split at h
+      · exact absurd h (by simp)
+      · rename_i pb pf wb wf hbr
+        split at h
+        · exact absurd h (by simp)
+        · rename_i out' hrec
+          simp only [Except.ok.injEq] at h
+          subst h
+          obtain ⟨legs, hF, hge, hpw⟩ := spatialLoop_any P hT S sini sfin ds n (k + 1) r out' hrec
+          obtain ⟨e1, e2⟩ := bracket_inv hbr
+          have hrid := advanceB_ge S _ rid r hadv
+          refine ⟨r :: legs, List.Forall₂.cons ?_ hF, ?_, List.pairwise_cons.mpr ⟨hge, hpw⟩⟩
+          · by_cases hr0 : r = 0
+            · subst hr0
+              have hlen : 0 < P.length := (List.getElem?_eq_some_iff.mp e2).1
+              have hb : bwdIdx 0 P.length = P.length - 1 := by simp [bwdIdx]
+              rw [hb] at e1
+              have hle : pf.t ≤ pb.t := times_le P hT e2 e1 (Nat.zero_le _)
+              refine ⟨pf, pf, e2, e2, ?_, ?_⟩ <;> simp only [clampT_rev _ _ _ hle] <;> exact le_refl _
+            · have hb : bwdIdx r P.length = r - 1 := by simp [bwdIdx, hr0]
+              rw [hb] at e1
+              have hle : pb.t ≤ pf.t := times_le P hT e1 e2 (Nat.sub_le _ _)
+              obtain ⟨c1, c2⟩ := clampT_mem (wb * pb.t + wf * pf.t) pb.t pf.t hle
+              exact ⟨pb, pf, e1, e2, c1, c2⟩
+          · intro x hx
+            rcases List.mem_cons.mp hx with h | h
+            · omega
+            · have := hge x h; omega
+
+/-- consequence: two outputs on different legs `r < r'` are in chronological order; so are two outputs of a leg travelled
+in no time (both carry its stamp) -/
+theorem onLeg_le (P : List (Fix β)) (hT : (P.map (·.t)).Pairwise (· ≤ ·)) {r r' : Nat} {o o' : Fix β}
+    (h : OnLeg P r o) (h' : OnLeg P r' o') (hrr : r < r') : o.t ≤ o'.t := by
+  obtain ⟨_, pf, _, e2, _, c2⟩ := h
+  obtain ⟨pb', _, e1', _, c1', _⟩ := h'
+  exact le_trans c2 (le_trans (times_le P hT e2 e1' (by omega)) c1')
+
+theorem onLeg_eq (P : List (Fix β)) {r : Nat} {o : Fix β} (h : OnLeg P r o)
+    (heq : ∀ pb pf, P[r - 1]? = some pb → P[r]? = some pf → pb.t = pf.t) :
+    ∀ pf, P[r]? = some pf → o.t = pf.t := by
+  obtain ⟨pb, pf, e1, e2, c1, c2⟩ := h
+  intro pf' e2'
+  rw [e2] at e2'
+  cases e2'
+  have := heq pb pf e1 e2
+  exact le_antisymm c2 (this ▸ c1)
+
+end AnyArith
 
 end TV.Resample
